@@ -8,7 +8,16 @@ bytes / list / tuple / str path / Path, must yield the model records; the same
 on harness-written well-formed layouts (other line widths, CRLF, blank lines,
 interleaved PHYLIP); (c) ``iter_splitlines`` must equal ``str.splitlines`` of
 the text for every chunk size; (d) generated minimal GenBank records parse to
-the generated locus names and sequences with both GenBank parsers.
+the generated locus names and sequences with both GenBank parsers (nucleotide
+and protein records); (e) zipwrite: cogent3 itself writes ``<name>.<format>.zip``
+(every format of the set, and a small tree): the archive must be sound, hold one
+member equal to the plain write, nothing else may be left in the directory, and
+the loaders / path based parsers must give back the model (a refusal must at
+least leave nothing behind); (f) chunkparse: ``iter_splitlines(path, chunk_size=k)``
+is fed to the line parsers for every k and the records must equal the whole-file
+parse (and the model); (g) entrypoints: the record-object and label-callback
+FASTA entry points (FastaParser, NcbiFastaParser, GroupFastaParser, text handles,
+``label_to_name=``) against the generated labels.
 """
 
 from __future__ import annotations
@@ -40,7 +49,17 @@ RULE = (
     "1..len+2 (files <= 150 characters) or chunk sizes around every line boundary (larger files). genbank sub-check: generated "
     "minimal GenBank records (LOCUS/DEFINITION/SOURCE/FEATURES/ORIGIN). Non-trivial = at least 2 records and (a name with a "
     "non-alphanumeric character or a sequence length within +-1 of a multiple of the line width / the 10-column field); chunks: at "
-    "least 2 lines and a chunk size smaller than the text; distinct = distinct (names, sequences, layout) tuples."
+    "least 2 lines and a chunk size smaller than the text; distinct = distinct (names, sequences, layout) tuples. "
+    "zipwrite sub-check: the roundtrip kind of set is written by the collection itself to x.<format>.zip in every applicable "
+    "format (and, one case in three, written a second time with the records reversed), a generated 3-6 tip tree to t.<nwk|tree|json|xml>.zip; "
+    "directory content, archive soundness, single member == plain write, load-back through two collection classes, load_seq and the "
+    "path based parsers. chunkparse sub-check: harness-laid-out FASTA / GDE / sequential and interleaved PHYLIP / PAML files of 1-4 "
+    "records and sequence lengths <= 24 or around the line width, plain/gz/bz2/zip; every chunk size 1..len+2 (files <= 160 characters, "
+    "else sizes around every line boundary) is streamed into MinimalFastaParser / MinimalGdeParser (strict and not), "
+    "MinimalPhylipParser and PamlParser. entrypoints sub-check: FASTA text (plain names; NCBI 'gi|id|db|accession|description' "
+    "labels with descriptions that may contain '|' and '>'; 'group:seqid:name' labels in contiguous groups) given as list, path and text "
+    "handle to FastaParser (default and moltype seq_maker, MinimalInfo / NameLabelInfo, strict and not), NcbiFastaParser, "
+    "GroupFastaParser (aligned or not, done_groups, default or given moltype) and to iter_fasta_records / MinimalFastaParser with four label_to_name callbacks."
 )
 ASSUMPTIONS = [
     "names are non-empty printable ASCII (0x20-0x7e) without leading/trailing blanks, unique, and unique after PHYLIP truncation",
@@ -48,7 +67,12 @@ ASSUMPTIONS = [
     "sequences are upper case and at least 1 long (an empty FASTA record is documented as an error of the strict parser; the bytes parser upper-cases, the line parsers do not, so lower case is outside 'identical records')",
     "PHYLIP and PAML are alignment formats: only equal-length sets are written in them; ragged sets use FASTA, GDE and JSON",
     "protein sequences use the 20 amino acids, X B Z, '-' and '?' ('*' is rejected by the protein moltype)",
-    ".zip is exercised on the read side only (single member archive made by the harness with zipfile), as in the design",
+    "roundtrip/variants/chunks/chunkparse/entrypoints read .zip archives made by the harness with zipfile (single member named after the file); the zipwrite sub-check lets cogent3 write the archive: tests/test_util/test_io.py::test_writes_compressed_formats pins that atomic_write('<x>.zip', mode='wt') followed by open_ gives the text back, and that is the call every collection/tree writer makes, so a .zip destination must round-trip like .gz/.bz2; the member NAME is not asserted (the library's tests read namelist()[0]; cogent3 names it after its temporary file), only that there is exactly one member and that its bytes equal the plain write",
+    "zipwrite: a write that raises is reported (signature .../seqs[text-format]/write or .../tree[newick-or-xml]/write: the four text formats share format.alignment.save_to_filename, json has its own branch) and must in any case leave the directory empty; the tree part is outside the statement proper (trees are not sequence collections) and is there because Tree.write goes through the same compression-aware open: its oracle is purely 'zipped == plain' (member bytes, load_tree(...).get_newick())",
+    "chunkparse: the reference is the parse of str.splitlines() of the text as a text-mode read returns it; it is first compared with the model, then every chunk size with the reference",
+    "entrypoints: FastaParser yields (name, seq object) with name from info_maker (MinimalInfo: the label; NameLabelInfo: first whitespace token, label kept in info.label); NcbiFastaLabelParser splits on the first four '|' and strips the fields (its docstring and tests): name = GI, info.GI == [gi], info[NcbiLabels[db]] == [accession], info.Description == rest; only the four db keys of NcbiLabels are generated; GroupFastaParser: groups are contiguous (a group id seen again later is appended to the CURRENT collection by the code, which nothing documents), member names unique inside a group, 'aligned: whether sequences are to be considered aligned' read as: aligned=False must accept ragged groups; 'done_groups: series of group keys to be excluded' read as: applies to every group; with the default moltype (text) only gap free sequences are generated because the letters-only alphabet of that moltype has no code for '-' (ArraySequence documents that it does not validate)",
+    "GroupFastaParser circumstances with a root cause of their own get one signature each: [unaligned-ragged-nonlast-group] (every group but the last is built with make_aligned_seqs whatever ``aligned`` says) and [last-group-done] (the last group is yielded without consulting done_groups; evaluated in a call of its own)",
+    "GenBank protein records are written like the nucleotide ones with 'aa' as unit and 'protein' in the molecule column (the value rich_parser looks for); real GenPept files leave that column empty, which the whitespace-split LOCUS parser is documented not to handle",
     "chunks sub-check text excludes '~' (content based encoding detection is a separate root cause, exercised in the roundtrip and variants sub-checks) and uses \\n or \\r\\n line ends only (bare \\r line ends are not generated); chunk_size >= 1 (0 means 'no data' to file.read)",
     "GenBank locus names are [A-Za-z0-9_.]+ (whitespace delimited LOCUS line)",
     "failures of clauses that read FASTA through the bytes parser while a name contains '>' are reported under one signature .../fasta-bytes-parser[gt-in-name]; failures of clauses that open a file in text mode while a name contains '~{' (the HZ-GB-2312 escape that content based encoding detection reacts to) under .../text-mode-open[hz-escape-in-name]; failures on GenBank files with more than one record under genbank/multi-record-file: these circumstances have their own root causes",
@@ -93,9 +117,9 @@ def _names(n):
     return st.lists(_name(), min_size=n, max_size=n, unique_by=(lambda x: x, lambda x: x[:9].strip()))
 
 
-def _seq(draw, mt, length):
+def _seq(draw, mt, length, style=None):
     canon, degen, gaps = ALPHABETS[mt]
-    style = draw(st.sampled_from(["canon", "mixed", "gappy"]))
+    style = style or draw(st.sampled_from(["canon", "mixed", "gappy"]))
     if style == "canon":
         alpha = canon
     elif style == "mixed":
@@ -191,7 +215,7 @@ def chunk_cases(draw):
         "lines": lines,
         "crlf": draw(st.integers(0, 3)) == 0,
         "final_nl": draw(st.integers(0, 3)) > 0,
-        "suffix": draw(st.sampled_from(["", "", "", ".gz", ".bz2"])),
+        "suffix": draw(st.sampled_from(["", "", "", ".gz", ".bz2", ".zip"])),
         "ext": draw(st.sampled_from(["txt", "fasta", "phylip"])),
         "num_lines": draw(st.integers(1, 6)),
     }
@@ -203,15 +227,18 @@ def genbank_cases(draw):
     loci = draw(st.lists(st.text(alphabet=ALNUM + "_.", min_size=1, max_size=14), min_size=n, max_size=n, unique=True))
     recs = []
     for locus in loci:
-        mt = draw(st.sampled_from(["DNA", "DNA", "RNA", "mRNA"]))
+        mt = draw(st.sampled_from(["DNA", "DNA", "RNA", "mRNA", "protein"]))
         L = draw(st.sampled_from([1, 9, 10, 11, 59, 60, 61, 119, 120, 121])) if draw(st.booleans()) else draw(st.integers(1, 250))
-        alpha = "acgtn" if mt == "DNA" else "acgun"
+        alpha = "acgtn" if mt == "DNA" else "acdefghiklmnpqrstvwyx" if mt == "protein" else "acgun"
         seq = draw(st.text(alphabet=alpha, min_size=L, max_size=L))
         feats = []
         for _ in range(draw(st.integers(0, 2))):
             a = draw(st.integers(1, L))
             b = draw(st.integers(a, L))
-            feats.append([draw(st.sampled_from(["gene", "CDS", "misc_feature"])), a, b, draw(st.booleans())])
+            if mt == "protein":
+                feats.append([draw(st.sampled_from(["Protein", "Region", "Site"])), a, b, False])
+            else:
+                feats.append([draw(st.sampled_from(["gene", "CDS", "misc_feature"])), a, b, draw(st.booleans())])
         recs.append(
             {
                 "locus": locus,
@@ -224,6 +251,103 @@ def genbank_cases(draw):
             }
         )
     return {"records": recs, "suffix": draw(st.sampled_from(["", "", ".gz"])), "ext": draw(st.sampled_from(["gb", "gbk", "genbank"]))}
+
+
+TREE_SUFFIXES = ["nwk", "tree", "json", "xml"]
+
+
+@st.composite
+def zip_cases(draw):
+    """a set written by cogent3 itself to ``<name>.<format>.zip`` (all formats of the set), plus a small tree"""
+    case = draw(set_cases())
+    del case["suffix"]
+    case["overwrite"] = draw(st.integers(0, 2)) == 0
+    ntips = draw(st.integers(3, 6))
+    tips = draw(st.lists(st.text(alphabet=ALNUM, min_size=1, max_size=6), min_size=ntips, max_size=ntips, unique=True))
+    lengths = [draw(st.sampled_from([None, 1.0, 0.5, 2.25, 10.0, 0.125])) for _ in range(ntips)]
+    case["tree"] = {"tips": tips, "lengths": lengths, "shape": draw(st.sampled_from(["star", "ladder"])), "suffix": draw(st.sampled_from(TREE_SUFFIXES))}
+    return case
+
+
+@st.composite
+def chunkparse_cases(draw):
+    """small harness-laid-out files: every chunk size is streamed into the line parsers"""
+    mt = draw(st.sampled_from(["dna", "dna", "rna", "protein"]))
+    fmt = draw(st.sampled_from(["fasta", "gde", "phylip-seq", "phylip-int", "paml"]))
+    n = draw(st.sampled_from([1, 2, 2, 3, 3, 4]))
+    names = draw(st.lists(_name(), min_size=n, max_size=n, unique_by=(lambda x: x, lambda x: x[:10].strip())))
+    width = draw(st.sampled_from([60, 10, 10, 7, 5, 1, 12]))
+    aligned = fmt in ("phylip-seq", "phylip-int", "paml") or draw(st.booleans())
+    pick = st.sampled_from([1, 2, 3, 9, 10, 11, 19, 20, 21, 24, width - 1 or 1, width, width + 1])
+    if aligned:
+        L = draw(pick)
+        seqs = [_seq(draw, mt, L) for _ in range(n)]
+    else:
+        seqs = [_seq(draw, mt, draw(pick)) for _ in range(n)]
+    return {
+        "moltype": mt,
+        "fmt": fmt,
+        "names": names,
+        "seqs": seqs,
+        "width": width,
+        "crlf": draw(st.integers(0, 3)) == 0,
+        "final_nl": draw(st.integers(0, 3)) > 0,
+        "blank_between": draw(st.integers(0, 2)) == 0,
+        "space_blocks": draw(st.integers(0, 2)) == 0,
+        "suffix": draw(st.sampled_from(["", "", "", ".gz", ".bz2", ".zip"])),
+    }
+
+
+_FIELD = st.text(alphabet=ALNUM + "_.-", min_size=1, max_size=8)
+_DESC_ALPHA = ALNUM + " []()|,;:=/_.-'>"
+
+
+@st.composite
+def entry_cases(draw):
+    """FASTA text for the record-object / label-callback entry points.
+    mode plain: free names; mode ncbi: 'gi|<id>|<db>|<accession>|<description>' labels; mode group: '<group>:<seqid>:<name>'
+    labels laid out in contiguous groups"""
+    mt = draw(st.sampled_from(["dna", "dna", "rna", "protein"]))
+    mode = draw(st.sampled_from(["plain", "plain", "ncbi", "group"]))
+    width = draw(st.sampled_from([60, 60, 10, 7, 80]))
+    case = {"moltype": mt, "mode": mode, "width": width, "crlf": draw(st.integers(0, 3)) == 0, "final_nl": draw(st.integers(0, 3)) > 0, "blank_between": draw(st.integers(0, 3)) == 0, "suffix": draw(st.sampled_from(["", "", ".gz", ".bz2", ".zip"]))}
+    if mode == "plain":
+        n = draw(st.sampled_from([1, 2, 3, 4, 5]))
+        case["names"] = draw(st.lists(_name(), min_size=n, max_size=n, unique_by=(lambda x: x, lambda x: x.split()[0])))
+        case["seqs"] = [_seq(draw, mt, _length(draw, width)) for _ in range(n)]
+        case["renamer"] = draw(st.sampled_from(["bracket", "first-word", "upper", "reverse"]))
+    elif mode == "ncbi":
+        n = draw(st.sampled_from([1, 2, 3, 4]))
+        gis = draw(st.lists(st.text(alphabet="0123456789", min_size=1, max_size=9), min_size=n, max_size=n, unique=True))
+        fields = []
+        for gi in gis:
+            desc = draw(st.text(alphabet=_DESC_ALPHA, min_size=0, max_size=30)).strip()
+            fields.append([gi, draw(st.sampled_from(["dbj", "emb", "gb", "ref"])), draw(_FIELD), desc])
+        case["fields"] = fields
+        case["pad"] = draw(st.booleans())  # blanks around the '|' separated fields (stripped by the label parser)
+        case["seqs"] = [_seq(draw, mt, _length(draw, width)) for _ in range(n)]
+    else:
+        ngroups = draw(st.sampled_from([1, 2, 2, 3]))
+        gnames = draw(st.lists(_FIELD, min_size=ngroups, max_size=ngroups, unique=True))
+        aligned = draw(st.booleans())
+        typed = draw(st.booleans())  # pass the moltype of the set instead of the default ASCII
+        # the letters-only alphabet of the default (text) moltype has no code for '-': gap free sequences there
+        style = None if typed else "canon"
+        groups, seqs = [], []
+        for g in gnames:
+            k = draw(st.sampled_from([1, 2, 2, 3]))
+            members = draw(st.lists(_FIELD, min_size=k, max_size=k, unique=True))
+            L = _length(draw, width)
+            even = aligned or draw(st.booleans())
+            for i, m in enumerate(members):
+                groups.append([g, f"id{len(groups)}", m])
+                seqs.append(_seq(draw, mt, L if even else _length(draw, width), style))
+        case["groups"] = groups
+        case["seqs"] = seqs
+        case["aligned"] = aligned
+        case["done"] = [g for g in gnames if draw(st.integers(0, 4)) == 0]
+        case["typed"] = typed
+    return case
 
 
 # ------------------------------------------------------------------- helpers
@@ -697,7 +821,8 @@ def genbank_text(rec) -> str:
     out.append("FEATURES             Location/Qualifiers")
     out.append("     %-16s%s" % ("source", f"1..{L}"))
     out.append('                     /organism="Escherichia coli"')
-    out.append('                     /mol_type="genomic %s"' % ("RNA" if "RNA" in rec["mol"] else "DNA"))
+    if rec["mol"] != "protein":
+        out.append('                     /mol_type="genomic %s"' % ("RNA" if "RNA" in rec["mol"] else "DNA"))
     for i, (kind, a, b, minus) in enumerate(rec["feats"]):
         loc = f"{a}..{b}"
         out.append("     %-16s%s" % (kind, f"complement({loc})" if minus else loc))
@@ -742,6 +867,8 @@ def _genbank(s: Soft, case, root):
         s.cls("has-features")
     if any(not r["source"] for r in recs):
         s.cls("no-source-block")
+    if any(r["mol"] == "protein" for r in recs):
+        s.cls("protein-record")
     evals = 0
     # a file with more than one record is a circumstance with its own root cause: one signature for all entry points
     multi = "genbank/multi-record-file" if len(recs) > 1 else None
@@ -760,14 +887,19 @@ def _genbank(s: Soft, case, root):
                     c.eq([r.get("length") for r in got], [len(w[1]) for w in want], "length-field", what)
                     c.eq([r.get("mol_type") for r in got], [r["mol"] for r in recs], "mol_type-field", what)
                     c.eq([len(r.get("features", [])) for r in got], [1 + len(r["feats"]) for r in recs], "feature-count", what)
-        if label == "bytes":
-            continue
         for just_seq in (False, True):
             evals += 1
             c = _Clause(s, f"genbank/rich_parser({label},just_seq={just_seq})", multi)
             ok, got = c.call(lambda: [(str(n), str(q)) for n, q in genbank.rich_parser(src(), just_seq=just_seq)])
             if ok and c.eq([g[0] for g in got], [w[0] for w in want], "locus", what):
                 c.eq([g[1] for g in got], [w[1] for w in want], "sequence", what)
+        if all(r["mol"] == "protein" for r in recs):
+            # the documented moltype argument on protein records
+            evals += 1
+            c = _Clause(s, f"genbank/rich_parser({label},moltype=protein)", multi)
+            ok, got = c.call(lambda: [(str(n), str(q), q.moltype.label) for n, q in genbank.rich_parser(src(), moltype="protein", just_seq=True)])
+            if ok:
+                c.eq(got, [(w[0], w[1], "protein") for w in want], "records", what)
     evals += 2
     c = _Clause(s, "genbank/load_unaligned_seqs", multi)
     ok, coll = c.call(lambda: load_unaligned_seqs(path, moltype="text"))
@@ -783,11 +915,436 @@ def _genbank(s: Soft, case, root):
     s.nontrivial = len(recs) >= 2 or any(len(r["seq"]) % 10 == 0 or r["feats"] for r in recs)
 
 
+# ------------------------------------------------------------- sub: zipwrite
+def _listing(d):
+    out = []
+    for base, dirs, files in os.walk(d):
+        rel = os.path.relpath(base, d)
+        out += [os.path.normpath(os.path.join(rel, x)) for x in dirs + files]
+    return sorted(out)
+
+
+def _zip_members(path):
+    """(names, {name: bytes}, testzip result) of an archive, read with the standard library"""
+    with zipfile.ZipFile(path) as z:
+        names = z.namelist()
+        return names, {n: z.read(n) for n in names}, z.testzip()
+
+
+def _zip_written(s: Soft, sig: str, zdir: str, zname: str, plain: bytes, what: str) -> bool:
+    """the directory holds the archive only, the archive is sound, has one member and that member is what the plain write gives"""
+    left = _listing(zdir)
+    ok = s.eq(left, [zname], f"{sig}/directory-content", f"{what}: directory after the write {left!r}")
+    if zname not in left:
+        return False
+    try:
+        members, content, bad = _zip_members(os.path.join(zdir, zname))
+    except (zipfile.BadZipFile, OSError, EOFError) as e:
+        s.fail(f"{sig}/unreadable-archive", f"{what}: {type(e).__name__}: {e}")
+        return False
+    ok = s.check(bad is None, f"{sig}/unsound-archive", f"{what}: testzip() reports {bad!r}") and ok
+    if not s.eq(len(members), 1, f"{sig}/member-count", f"{what}: members {members!r}"):
+        return False
+    s.cls("zip-member-named-after-file" if members[0] == zname[: -len(".zip")] else "zip-member-other-name")
+    return s.eq(content[members[0]], plain, f"{sig}/member-differs-from-plain-write", what) and ok
+
+
+def exec_zipwrite(case) -> Soft:
+    s = Soft("C06/")
+    root = _tmpdir()
+    try:
+        _zipwrite(s, case, root)
+    finally:
+        shutil.rmtree(root, ignore_errors=True)
+    return s
+
+
+def _newick(spec):
+    tips = [t if l is None else f"{t}:{l}" for t, l in zip(spec["tips"], spec["lengths"])]
+    if spec["shape"] == "star":
+        return "(" + ",".join(tips) + ");"
+    cur = f"({tips[0]},{tips[1]})"
+    for t in tips[2:-1]:
+        cur = f"({cur}:1.5,{t})"
+    return f"({cur}:0.25,{tips[-1]});" if len(tips) > 2 else cur + ";"
+
+
+def _zipwrite(s: Soft, case, root):
+    from cogent3 import load_seq, load_tree, make_aligned_seqs, make_tree, make_unaligned_seqs
+    from cogent3.parse import fasta as pfasta
+    from cogent3.parse.sequence import PARSERS
+
+    mt, names, seqs, kind = case["moltype"], case["names"], case["seqs"], case["kind"]
+    bs = case["block_size"]
+    ragged = len({len(q) for q in seqs}) > 1
+
+    def make(order):
+        data = {n: dict(zip(names, seqs))[n] for n in order}
+        if kind in ("array", "aln"):
+            return make_aligned_seqs(data, moltype=mt, array_align=kind == "array")
+        return make_unaligned_seqs(data, moltype=mt, new_type=kind == "newcoll")
+
+    s.nontrivial = _set_classes(s, names, seqs, mt, bs or 60)
+    s.cls(f"kind={kind}", f"block_size={bs}")
+    ok, obj = s.call(f"construct/{kind}", lambda: make(names))
+    if not ok:
+        return
+    evals = [0]
+    formats = ["fasta", "gde", "json"] if ragged else ["fasta", "phylip", "paml", "gde", "json"]
+    for fmt in formats:
+        ext = case["fasta_suffix"] if fmt == "fasta" else fmt
+        pre = f"zipwrite/{fmt}"
+        # the text formats share one writer (format.alignment.save_to_filename), json has its own: one signature each
+        wsig = "zipwrite/seqs[json]/write" if fmt == "json" else "zipwrite/seqs[text-format]/write"
+        kw = {"block_size": bs} if (bs and fmt != "json") else {}
+        want = [(n[:9].strip() if fmt == "phylip" else n, q) for n, q in zip(names, seqs)]
+        s.cls(f"fmt={fmt}")
+        ppath = os.path.join(root, f"p_{fmt}.{ext}")
+        ok, _ = s.call(f"{pre}/plain-write/{kind}", lambda: obj.write(ppath, **kw))
+        if not ok:
+            continue
+        plain = _read_raw(ppath)
+        zdir = os.path.join(root, f"z_{fmt}")
+        os.mkdir(zdir)
+        zname = f"x.{ext}.zip"
+        zpath = os.path.join(zdir, zname)
+        what = f"{kind}.write('{zname}') block_size={bs}; names {names!r}"
+        evals[0] += 1
+        ok, _ = s.call(wsig, lambda: obj.write(zpath, **kw))
+        if not ok:
+            # refused: at least nothing may be left where the archive was to be
+            s.cls("zip-write-refused")
+            left = _listing(zdir)
+            s.check(not left, f"{wsig}/refused-but-left-files", f"{what}: {left!r}")
+            continue
+        s.cls("zip-write-done")
+        if not _zip_written(s, f"{pre}/written", zdir, zname, plain, what):
+            continue
+        # load back
+        loads = [(kind, lambda: _load(kind, zpath, mt))]
+        other = {"array": "coll", "aln": "array", "coll": "newcoll", "newcoll": "coll"}[kind]
+        if ragged and other in ("array", "aln"):
+            other = "coll"
+        if fmt != "json":
+            loads.append((other, lambda: _load(other, zpath, mt)))
+        for k, fn in loads:
+            evals[0] += 1
+            c = _clause(s, "zipwrite", f"{pre}/load/{k}", names, _reads(fmt))
+            ok, back = c.call(fn)
+            if ok:
+                _check_loaded(c, back, want, what)
+        if fmt != "json":
+            evals[0] += 1
+            c = _clause(s, "zipwrite", f"{pre}/load_seq", names, _reads(fmt))
+            ok, one = c.call(lambda: load_seq(zpath, moltype=mt))
+            if ok:
+                ok, got = c.call(lambda: (str(one.name), str(one)))
+                if ok:
+                    c.eq(got, want[0], "first-record", what)
+            entries = [(f"PARSERS[{fmt}](str-path)", _reads(fmt), lambda: _records(PARSERS[fmt], zpath)), (f"PARSERS[{fmt}](Path)", _reads(fmt), lambda: _records(PARSERS[fmt], pathlib.Path(zpath)))]
+            if fmt == "fasta":
+                entries.append(("MinimalFastaParser(str-path,strict)", "text-open", lambda: _records(pfasta.MinimalFastaParser, zpath, strict=True)))
+            for label, reads, fn in entries:
+                evals[0] += 1
+                c = _clause(s, "zipwrite", f"{pre}/parse/{label}", names, reads)
+                ok, got = c.call(fn)
+                if ok and c.eq([r[0] for r in got], [r[0] for r in want], "labels", what):
+                    c.eq([r[1] for r in got], [r[1] for r in want], "seqs", what)
+        # a second write to the same path replaces the archive
+        if case["overwrite"] and len(names) > 1:
+            s.cls("zip-overwrite")
+            order = list(reversed(names))
+            ok, obj2 = s.call(f"construct/{kind}", lambda: make(order))
+            if not ok:
+                continue
+            ppath2 = os.path.join(root, f"p2_{fmt}.{ext}")
+            ok, _ = s.call(f"{pre}/plain-write/{kind}", lambda: obj2.write(ppath2, **kw))
+            if not ok:
+                continue
+            evals[0] += 1
+            ok, _ = s.call(wsig.replace("/write", "/overwrite"), lambda: obj2.write(zpath, **kw))
+            if ok and _zip_written(s, f"{pre}/overwritten", zdir, zname, _read_raw(ppath2), "second " + what):
+                c = _clause(s, "zipwrite", f"{pre}/overwritten/load/{kind}", names, _reads(fmt))
+                ok, back = c.call(lambda: _load(kind, zpath, mt))
+                if ok:
+                    _check_loaded(c, back, list(reversed(want)), "second " + what)
+    # the tree writer uses the same compression-aware open: plain and zipped files must hold the same text
+    spec = case["tree"]
+    ext = spec["suffix"]
+    s.cls(f"tree-suffix={ext}")
+    nwk = _newick(spec)
+    ok, tree = s.call("construct/tree", lambda: make_tree(nwk))
+    if ok:
+        tsig = "zipwrite/tree[json]" if ext == "json" else "zipwrite/tree[newick-or-xml]"
+        ppath = os.path.join(root, f"pt.{ext}")
+        zdir = os.path.join(root, "z_tree")
+        os.mkdir(zdir)
+        zname = f"t.{ext}.zip"
+        zpath = os.path.join(zdir, zname)
+        what = f"tree {nwk} written as {zname}"
+        ok, _ = s.call(f"{tsig}/plain-write", lambda: tree.write(ppath))
+        if ok:
+            evals[0] += 1
+            ok, _ = s.call(f"{tsig}/write", lambda: tree.write(zpath))
+            if not ok:
+                s.cls("tree-zip-write-refused")
+                left = _listing(zdir)
+                s.check(not left, f"{tsig}/write/refused-but-left-files", f"{what}: {left!r}")
+            elif _zip_written(s, f"{tsig}/written", zdir, zname, _read_raw(ppath), what):
+                s.cls("tree-zip-write-done")
+                evals[0] += 1
+                ok, got = s.call(f"{tsig}/load_tree", lambda: (load_tree(zpath).get_newick(with_distances=True), load_tree(ppath).get_newick(with_distances=True)))
+                if ok:
+                    s.eq(got[0], got[1], f"{tsig}/load_tree/differs-from-plain", what)
+    s.evals = evals[0]
+
+
+# ----------------------------------------------------------- sub: chunkparse
+def exec_chunkparse(case) -> Soft:
+    s = Soft("C06/")
+    root = _tmpdir()
+    try:
+        _chunkparse(s, case, root)
+    finally:
+        shutil.rmtree(root, ignore_errors=True)
+    return s
+
+
+def _chunkparse(s: Soft, case, root):
+    from cogent3.parse import fasta as pfasta
+    from cogent3.parse import paml as ppaml
+    from cogent3.parse import phylip as pphylip
+    from cogent3.util.io import iter_splitlines
+
+    fmt, names, seqs, mt = case["fmt"], case["names"], case["seqs"], case["moltype"]
+    text, want = layout(case)
+    base = fmt.split("-")[0]
+    path = os.path.join(root, f"k.{base}{case['suffix']}")
+    _write_raw(path, text.encode("ascii"))
+    seen = text.replace("\r\n", "\n")
+    n = len(seen)
+    parsers = {
+        "fasta": [("MinimalFastaParser(strict)", lambda it: pfasta.MinimalFastaParser(it, strict=True)), ("MinimalFastaParser(non-strict)", lambda it: pfasta.MinimalFastaParser(it, strict=False))],
+        "gde": [("MinimalGdeParser(strict)", lambda it: pfasta.MinimalGdeParser(it, strict=True)), ("MinimalGdeParser(non-strict)", lambda it: pfasta.MinimalGdeParser(it, strict=False))],
+        "phylip": [("MinimalPhylipParser", lambda it: pphylip.MinimalPhylipParser(it))],
+        "paml": [("PamlParser", lambda it: ppaml.PamlParser(it))],
+    }[base]
+    if n <= 160:
+        ks = list(range(1, n + 3))
+        s.cls("every-chunk-size")
+    else:
+        ends, pos = set(), 0
+        for line in seen.split("\n"):
+            pos += len(line) + 1
+            ends.update((pos - 1, pos, pos + 1))
+        ks = sorted(k for k in ends | {1, 2, 3, n - 1, n, n + 1, n + 2} if 1 <= k <= n + 2)
+        if len(ks) > 80:
+            step = len(ks) / 80.0
+            ks = sorted({ks[int(i * step)] for i in range(80)})
+        s.cls("boundary-chunk-sizes")
+    s.nontrivial = _set_classes(s, names, seqs, mt, case["width"]) and n > 2
+    s.cls(f"layout={fmt}", f"suffix={case['suffix'] or 'plain'}", "crlf" if case["crlf"] else "lf")
+    if case["blank_between"]:
+        s.cls("blank_between")
+    if not case["final_nl"]:
+        s.cls("no-final-newline")
+    evals = 0
+    for label, parse in parsers:
+        # the whole-file parse of the same lines is the reference of "identical records"; it must also be the model
+        c = _clause(s, "chunkparse", f"chunkparse/{fmt}/{label}/whole-file", names, "memory")
+        ok, whole = c.call(lambda: _records(parse, seen.splitlines()))
+        if not ok:
+            continue
+        evals += 1
+        if not (c.eq([r[0] for r in whole], [w[0] for w in want], "labels", f"{text[:160]!r}") and c.eq([r[1] for r in whole], [w[1] for w in want], "seqs", f"{text[:160]!r}")):
+            continue
+        c = _clause(s, "chunkparse", f"chunkparse/{fmt}/{label}/chunked", names, "text-open")
+        for k in ks:
+            evals += 1
+            ok, got = c.call(lambda: _records(parse, iter_splitlines(path, chunk_size=k)))
+            if not ok or not c.eq(got, whole, "records-differ-from-whole-file", f"chunk_size={k} of {n} characters, text {text[:160]!r}"):
+                break
+    s.evals = evals
+
+
+# ---------------------------------------------------------- sub: entrypoints
+RENAMERS = {
+    "bracket": lambda x: f"[{x}]",
+    "first-word": lambda x: x.split()[0],
+    "upper": lambda x: x.upper(),
+    "reverse": lambda x: x[::-1],
+}
+
+
+def exec_entrypoints(case) -> Soft:
+    s = Soft("C06/")
+    root = _tmpdir()
+    try:
+        _entrypoints(s, case, root)
+    finally:
+        shutil.rmtree(root, ignore_errors=True)
+    return s
+
+
+def _fasta_text(labels, seqs, case):
+    lines = []
+    for n, q in zip(labels, seqs):
+        lines.append(">" + n)
+        lines.extend(_wrap(q, case["width"]))
+        if case["blank_between"]:
+            lines.append("")
+    nl = "\r\n" if case["crlf"] else "\n"
+    return nl.join(lines) + (nl if case["final_nl"] else "")
+
+
+def _entrypoints(s: Soft, case, root):
+    from cogent3 import get_moltype, open_
+    from cogent3.parse import fasta as pfasta
+
+    mt, mode, seqs = case["moltype"], case["mode"], case["seqs"]
+    if mode == "plain":
+        labels = list(case["names"])
+    elif mode == "ncbi":
+        sep = " | " if case["pad"] else "|"
+        labels = [sep.join(["gi", gi, db, acc, desc]).strip() for gi, db, acc, desc in case["fields"]]
+    else:
+        labels = [":".join(g) for g in case["groups"]]
+    text = _fasta_text(labels, seqs, case)
+    lines = text.splitlines()
+    path = os.path.join(root, f"e.fasta{case['suffix']}")
+    _write_raw(path, text.encode("ascii"))
+    s.cls(f"mode={mode}", mt, f"suffix={case['suffix'] or 'plain'}", "crlf" if case["crlf"] else "lf", f"records={min(len(labels), 4)}")
+    if case["blank_between"]:
+        s.cls("blank_between")
+    s.nontrivial = len(labels) >= 2
+    evals = [0]
+    what = f"text {text[:200]!r}"
+    sub = "entrypoints"
+
+    def run(label, reads, fn, want, part="records"):
+        evals[0] += 1
+        c = _clause(s, sub, f"{sub}/{label}", labels, reads)
+        ok, got = c.call(fn)
+        if ok:
+            c.eq(got, want, part, f"{label} on {what}")
+
+    make_seq = get_moltype(mt).make_seq
+    if mode == "plain":
+        want = list(zip(labels, seqs))
+        # text handles (io.TextIOWrapper) given to the bytes parser
+        def handle(opener, **kw):
+            with opener() as f:
+                return _records(pfasta.iter_fasta_records, f, **kw)
+
+        run("iter_fasta_records(open_-handle)", "fasta-bytes", lambda: handle(lambda: open_(path)), want)
+        if not case["suffix"]:
+            run("iter_fasta_records(builtin-open-handle)", "fasta-bytes", lambda: handle(lambda: open(path)), want)
+        # label_to_name of every FASTA entry point
+        rn = RENAMERS[case["renamer"]]
+        s.cls(f"renamer={case['renamer']}")
+        renamed = [(rn(n), q) for n, q in want]
+        for label, reads, fn in [
+            ("iter_fasta_records(bytes,label_to_name)", "fasta-bytes", lambda: _records(pfasta.iter_fasta_records, text.encode("ascii"), label_to_name=rn)),
+            ("iter_fasta_records(str-path,label_to_name)", "fasta-bytes", lambda: _records(pfasta.iter_fasta_records, path, label_to_name=rn)),
+            ("iter_fasta_records(Path,label_to_name)", "fasta-bytes", lambda: _records(pfasta.iter_fasta_records, pathlib.Path(path), label_to_name=rn)),
+            ("iter_fasta_records(list,label_to_name)", "memory", lambda: _records(pfasta.iter_fasta_records, list(lines), label_to_name=rn)),
+            ("iter_fasta_records(open_-handle,label_to_name)", "fasta-bytes", lambda: handle(lambda: open_(path), label_to_name=rn)),
+            ("MinimalFastaParser(list,strict,label_to_name)", "memory", lambda: _records(pfasta.MinimalFastaParser, list(lines), strict=True, label_to_name=rn)),
+            ("MinimalFastaParser(list,non-strict,label_to_name)", "memory", lambda: _records(pfasta.MinimalFastaParser, list(lines), strict=False, label_to_name=rn)),
+            ("MinimalFastaParser(str-path,strict,label_to_name)", "text-open", lambda: _records(pfasta.MinimalFastaParser, path, strict=True, label_to_name=rn)),
+        ]:
+            run(label, reads, fn, renamed)
+        # record-object parsers
+        for strict in (True, False):
+            tag = "strict" if strict else "non-strict"
+            for src_label, reads, src in [("list", "memory", lambda: list(lines)), ("str-path", "text-open", lambda: path)]:
+                run(f"FastaParser({src_label},{tag})", reads, lambda: [(str(n), str(q), str(q.name)) for n, q in pfasta.FastaParser(src(), strict=strict)], [(n, q, n) for n, q in want])
+            run(
+                f"FastaParser(list,{mt}.make_seq,NameLabelInfo,{tag})",
+                "memory",
+                lambda: [(str(n), str(q), str(q.name), str(q.info.label), q.moltype.label) for n, q in pfasta.FastaParser(list(lines), seq_maker=make_seq, info_maker=pfasta.NameLabelInfo, strict=strict)],
+                [(n.split()[0], q, n.split()[0], n, mt) for n, q in want],
+            )
+    elif mode == "ncbi":
+        dbs = pfasta.NcbiLabels
+        want = []
+        for (gi, db, acc, desc), q in zip(case["fields"], seqs):
+            want.append((gi, q, gi, [gi], [acc], desc))
+        for strict in (True, False):
+            tag = "strict" if strict else "non-strict"
+            for src_label, reads, src in [("list", "memory", lambda: list(lines)), ("Path", "text-open", lambda: pathlib.Path(path))]:
+                run(
+                    f"NcbiFastaParser({src_label},{tag})",
+                    reads,
+                    lambda: [(str(n), str(q), str(q.name), list(q.info.GI), list(q.info[dbs[f[1]]]), str(q.info.Description)) for (n, q), f in zip(pfasta.NcbiFastaParser(src(), seq_maker=make_seq, strict=strict), case["fields"])],
+                    want,
+                )
+        # the number of records, separately (zip above stops at the shorter)
+        run("NcbiFastaParser(list,default-seq_maker)", "memory", lambda: [(str(n), str(q)) for n, q in pfasta.NcbiFastaParser(list(lines))], [(w[0], w[1]) for w in want])
+        # the generic parsers keep the whole label
+        run("MinimalFastaParser(list,strict)", "memory", lambda: _records(pfasta.MinimalFastaParser, list(lines)), list(zip(labels, seqs)))
+        run("iter_fasta_records(str-path)", "fasta-bytes", lambda: _records(pfasta.iter_fasta_records, path), list(zip(labels, seqs)))
+    else:
+        groups, done, aligned = case["groups"], case["done"], case["aligned"]
+        order = []
+        for g, _, _ in groups:
+            if g not in order:
+                order.append(g)
+        members = {g: [(m, q) for (gg, _, m), q in zip(groups, seqs) if gg == g] for g in order}
+        s.cls(f"groups={len(order)}", "aligned" if aligned else "unaligned")
+        if done:
+            s.cls("done_groups")
+        last = order[-1]
+        live = [g for g in order if g not in done]
+        # circumstances with a root cause of their own (one signature each):
+        # * GroupFastaParser builds every group but the last as an alignment whatever ``aligned`` says
+        # * the last group is yielded without consulting done_groups (evaluated in a call of its own below)
+        tag = ""
+        if not aligned and any(len({len(q) for _, q in members[g]}) > 1 for g in live if g != last):
+            tag = "[unaligned-ragged-nonlast-group]"
+            s.cls("ragged-nonlast-group")
+        kw = {"aligned": aligned}
+        if case["typed"]:
+            kw["moltype"] = get_moltype(mt)
+            s.cls("typed")
+
+        def grouped(src, **kw):
+            lp = pfasta.LabelParser("%(name)s", [(0, "Group", str), (1, "seq_id", str), (2, "name", str)], split_with=":")
+            out = []
+            for coll in pfasta.GroupFastaParser(src, lp, **kw):
+                d = coll.to_dict()
+                out.append((str(coll.info.Group), [str(x) for x in coll.names], [str(d[x]) for x in coll.names]))
+            return out
+
+        def expect(excluded):
+            return [(g, [m for m, _ in members[g]], [q for _, q in members[g]]) for g in order if g not in excluded]
+
+        done1 = [g for g in done if g != last]
+        kw1 = dict(kw, done_groups=list(done1)) if done1 else kw
+        evals[0] += 1
+        ok, got = s.call(f"{sub}/GroupFastaParser{tag}", lambda: grouped(list(lines), **kw1))
+        if ok:
+            s.eq(got, expect(done1), f"{sub}/GroupFastaParser{tag}/groups", f"aligned={aligned} done_groups={done1} typed={case['typed']} on {what}")
+        if last in done and not tag:
+            s.cls("last-group-done")
+            evals[0] += 1
+            ok, got = s.call(f"{sub}/GroupFastaParser[last-group-done]", lambda: grouped(list(lines), **dict(kw, done_groups=list(done))))
+            if ok:
+                s.eq(got, expect(done), f"{sub}/GroupFastaParser[last-group-done]/groups", f"aligned={aligned} done_groups={done} on {what}")
+        # label_to_name given a LabelParser: the generic parser returns the display names
+        lp = pfasta.LabelParser("%(name)s/%(Group)s", [(0, "Group", str), (2, "name", str)], split_with=":")
+        run("MinimalFastaParser(list,LabelParser)", "memory", lambda: _records(pfasta.MinimalFastaParser, list(lines), label_to_name=lp), [(f"{m}/{g}", q) for (g, _, m), q in zip(groups, seqs)])
+    s.evals = evals[0]
+
+
 SUBS = [
     Sub("roundtrip", exec_roundtrip, strategy=set_cases(), quick=1600, thorough=160_000, shards_quick=16),
     Sub("variants", exec_variants, strategy=variant_cases(), quick=1600, thorough=160_000, shards_quick=8),
     Sub("chunks", exec_chunks, strategy=chunk_cases(), quick=800, thorough=80_000, shards_quick=8),
     Sub("genbank", exec_genbank, strategy=genbank_cases(), quick=400, thorough=40_000, shards_quick=4),
+    Sub("zipwrite", exec_zipwrite, strategy=zip_cases(), quick=480, thorough=48_000, shards_quick=16),
+    Sub("chunkparse", exec_chunkparse, strategy=chunkparse_cases(), quick=480, thorough=48_000, shards_quick=8),
+    Sub("entrypoints", exec_entrypoints, strategy=entry_cases(), quick=800, thorough=80_000, shards_quick=8),
 ]
 
 KNOWN_PREDICATES = {}
@@ -800,8 +1357,8 @@ FUZZ = {
 }
 
 META = {
-    "technique": "Hypothesis-generated name/sequence sets; write->load round trip against the generated set, differential between all parser entry points of a format on identical text (cogent3-written and harness-written layouts), chunked line streaming against str.splitlines",
-    "level_text": "Each run writes about 1 600 generated sets (names weighted towards FASTA/PHYLIP/Newick metacharacters, lengths around the wrap width and the PHYLIP label field) in all five formats with plain/gz/bz2/zip suffixes through four collection classes, loads them back and feeds the written text to every parser entry point (bytes, list, tuple, str path, Path; strict and non-strict); a further 1 600 sets are laid out by the harness itself (other widths, CRLF, blank lines, interleaved PHYLIP) and 800 line lists are streamed with every chunk size.",
-    "level_note": "Exploration only: no coverage-guided byte-level fuzzing of the parsers (the design's atheris part is left out); Clustal/MSF/Nexus/XMFA parsers are not exercised; .zip only on the read side; lower-case and empty sequences are outside the domain.",
+    "technique": "Hypothesis-generated name/sequence sets; write->load round trip against the generated set (plain, .gz, .bz2 and .zip written by the library itself), differential between all parser entry points of a format on identical text (cogent3-written and harness-written layouts), chunked line streaming against str.splitlines and, fed to the parsers, against the whole-file parse",
+    "level_text": "Each run writes about 1 600 generated sets (names weighted towards FASTA/PHYLIP/Newick metacharacters, lengths around the wrap width and the PHYLIP label field) in all five formats with plain/gz/bz2/zip suffixes through four collection classes, loads them back and feeds the written text to every parser entry point (bytes, list, tuple, str path, Path; strict and non-strict); a further 1 600 sets are laid out by the harness itself (other widths, CRLF, blank lines, interleaved PHYLIP) and 800 line lists are streamed with every chunk size; 480 sets are written straight to .zip destinations in every format (plus a tree), 480 small files are streamed into the line parsers with every chunk size, and 800 FASTA texts go through the record-object / label-callback entry points.",
+    "level_note": "Exploration only: no coverage-guided byte-level fuzzing of the parsers (the design's atheris part is left out); Clustal/MSF/Nexus/XMFA parsers are not exercised; the name of the member inside a library-written .zip is not asserted; real GenPept LOCUS lines (empty molecule column) are not generated; lower-case and empty sequences are outside the domain.",
     "design_ref": "DESIGN.md section 1, C06",
 }
